@@ -178,6 +178,17 @@ def methods(H, rng):
         for q in bools:
             m[f"{mname}({q}={not ps[q].default}, in_place=False)"] = lambda meth=meth, q=q, val=not ps[q].default: meth(in_place=False, **{q: val})
     if type(H) is xgi.Hypergraph:
+        # node_swap restricted to one order: a pair of nodes for which the call does something (both have edges of that order,
+        # one of which holds exactly one of the two)
+        for d_ in sorted({len(ms) - 1 for ms in H.edges.members() if len(ms) >= 2})[:3]:
+            es_d = [set(ms) for ms in H.edges.members() if len(ms) == d_ + 1]
+            deg = {}
+            for ms in es_d:
+                for x in ms:
+                    deg[x] = deg.get(x, 0) + 1
+            pair = next(((a_, b_) for a_ in deg for b_ in deg if a_ != b_ and any((a_ in ms) != (b_ in ms) for ms in es_d)), None)
+            if pair:
+                m[f"node_swap(order={d_})"] = lambda pair=pair, d_=d_: xgi.node_swap(H, pair[0], pair[1], order=d_)
         m["dual"] = lambda: H.dual()
         m["<<"] = lambda: H << xgi.Hypergraph([[0, "q"]])
         m["merge_duplicate_edges? no: in place"] = lambda: None
